@@ -254,6 +254,47 @@ theorem upstream_xrealip (cfg : Cfg) (uuid : Str) (t : Route) (r : Req) (ip port
   rw [get1_congr e, e] at this
   exact this
 
+/-- Bridge to the theorems stated about `serve` (`Props/C08.lean`: X-Forwarded-Host / -Port under every `host=`
+option, request id, …): what the upstream receives under a managed name other than X-Forwarded-For is what
+`serve` computed, and its Host is `serve`'s Host. -/
+theorem upstream_as_serve (cfg : Cfg) (uuid : Str) (t : Route) (r : Req) (ip port : Str) (k : Str)
+    (hred : (t.redirectCode != 0 && t.hasRedirectURL) = false)
+    (hsplit : splitHostPort r.remoteAddr = some (ip, port))
+    (hk : k ∈ managedKeys cfg) (hx : k ≠ xForwardedFor) (hf : k ∉ fixedHopByHop) :
+    ∃ u kind sent, serve cfg uuid t.hostOpt t.targetHost t.strip r = some u ∧
+      serveHTTP cfg uuid (some t) r = .forward kind u.host sent u.resp ∧
+      entries k sent = entries k u.headers := by
+  refine ⟨_, _, _, by simp only [serve, addHeaders, hsplit]; rfl, serveHTTP_forward cfg uuid t r ip port hred hsplit, ?_⟩
+  exact upstream_managed_as_addHeaders _ cfg t.strip (withRequestID cfg uuid r) ip k hk hx hf
+
+/-- **X-Forwarded-Host and X-Forwarded-Port at the upstream describe the host the client asked for, even when
+the route rewrites Host** (D12), through every handler: the upstream's Host is the overridden one. -/
+theorem upstream_xfhost_xfport (cfg : Cfg) (uuid : Str) (t : Route) (r : Req) (ip port : Str)
+    (hred : (t.redirectCode != 0 && t.hasRedirectURL) = false)
+    (hsplit : splitHostPort r.remoteAddr = some (ip, port))
+    (hxh : get1 xForwardedHost r.headers = []) (hxp : get1 xForwardedPort r.headers = []) (hh : r.host ≠ [])
+    (hqh : RequestIDKeyFree cfg xForwardedHost) (hch : ClientIPKeyFree cfg xForwardedHost) (hth : TLSKeyFree cfg xForwardedHost)
+    (hqp : RequestIDKeyFree cfg xForwardedPort) (hcp : ClientIPKeyFree cfg xForwardedPort) (htp : TLSKeyFree cfg xForwardedPort) :
+    ∃ kind sent resp, serveHTTP cfg uuid (some t) r =
+        .forward kind (overrideHost t.hostOpt t.targetHost r.host) sent resp ∧
+      entries xForwardedHost sent = [(xForwardedHost, [r.host])] ∧
+      entries xForwardedPort sent = [(xForwardedPort, [localPort r.host r.tls.isSome])] := by
+  obtain ⟨u1, k1, s1, hs1, hf1, he1⟩ := upstream_as_serve cfg uuid t r ip port xForwardedHost hred hsplit
+    (by simp [managedKeys]) (by decide) (by decide)
+  obtain ⟨u2, k2, s2, hs2, hf2, he2⟩ := upstream_as_serve cfg uuid t r ip port xForwardedPort hred hsplit
+    (by simp [managedKeys]) (by decide) (by decide)
+  obtain ⟨u3, hs3, hv3, hh3⟩ := xfhost_is_client_host cfg uuid t.hostOpt t.targetHost t.strip r ip port hsplit hxh hh hqh hch hth
+  obtain ⟨u4, hs4, hv4, _⟩ := xfport_from_client_host cfg uuid t.hostOpt t.targetHost t.strip r ip port hsplit hxp hqp hcp htp
+  have e13 : u1 = u3 := Option.some.inj (hs1.symm.trans hs3)
+  have e24 : u2 = u4 := Option.some.inj (hs2.symm.trans hs4)
+  have e12 : u1 = u2 := Option.some.inj (hs1.symm.trans hs2)
+  have hsame : Served.forward k1 u1.host s1 u1.resp = Served.forward k2 u2.host s2 u2.resp := hf1.symm.trans hf2
+  injection hsame with _ _ hs12 _
+  refine ⟨k1, s1, u1.resp, ?_, ?_, ?_⟩
+  · rw [hf1, e13, hh3]
+  · rw [he1, e13]; exact hv3
+  · rw [hs12, he2, e24]; exact hv4
+
 /-- **Strict-Transport-Security reaches the client only on TLS connections**: on a plain connection no exit
 and no handler of `ServeHTTP` sends it. -/
 theorem client_sts_only_on_tls (cfg : Cfg) (uuid : Str) (route : Option Route) (r : Req) (htls : r.tls = none) :
@@ -353,6 +394,9 @@ example : ClientIPKeyFree exCfg upgrade ∧ TLSKeyFree exCfg upgrade ∧
     ClientIPKeyFree exCfg xForwardedFor ∧ TLSKeyFree exCfg xForwardedFor ∧ RequestIDKeyFree exCfg xForwardedFor :=
   ⟨Or.inr (by decide), Or.inr (by decide), Or.inr (by decide), Or.inr (by decide), Or.inr (by decide)⟩
 example : vals xForwardedFor exListReq.headers ≠ some [] := by decide
+-- D12 end to end: host=up.example, the upstream is told the client's host and port
+example : sentUnder (serveHTTP exCfg "id".toList (some exRoute) exListReq) xForwardedHost = some ["client.example:8080".toList] := by decide
+example : sentUnder (serveHTTP exCfg "id".toList (some exRoute) exListReq) xForwardedPort = some ["8080".toList] := by decide
 -- exits
 example : (match serveHTTP exCfg [] (some { exRoute with redirectCode := 301, hasRedirectURL := true }) exListReq with
     | .redirect c => c | _ => 0) = 301 := by decide
